@@ -240,7 +240,7 @@ def run(ctx):
         execute(ctx, sub3, "sub3", "go")
     if on("race"):
         # (5) the same programs free-running on one goroutine per document under the race detector
-        race = gen(ctx, "gen_race.cfg", "SpecGen", "Emit", 2, CORE + ["Save"] if q else FULL, 1, 2, "race")
+        race = gen(ctx, "gen_race.cfg", "SpecGen", "Emit", 2, CORE + ["Save", "SetPageMargins"] if q else FULL, 1, 2, "race")
         execute(ctx, unordered(ctx, race, "race"), "race", "race", rounds=20 if q else 30)
         if not q:
             race2 = gen(ctx, "gen_race2.cfg", "SpecGen", "Emit", 3, FULL, 3, 7, "race2", mode="sim", num=8, depth=8, limit=100)
